@@ -58,6 +58,7 @@ pub fn selftest_clock() {
 
 static WD_FD: AtomicI32 = AtomicI32::new(-1);
 static WD_ARMED: AtomicBool = AtomicBool::new(false);
+pub static WD_SECS: AtomicU64 = AtomicU64::new(20);
 static mut WD_MSG: [u8; 512] = [0; 512];
 static WD_MSG_LEN: AtomicU64 = AtomicU64::new(0);
 
@@ -218,7 +219,7 @@ pub fn install_panic_hook() {
 
 /// Run `f` (a call into the library) under catch_unwind and the hang watchdog.
 pub fn guarded<R>(hang_line: &str, f: impl FnOnce() -> R) -> Result<R, CallOutcome> {
-    watchdog_arm(20, hang_line);
+    watchdog_arm(WD_SECS.load(Ordering::SeqCst) as u32, hang_line);
     let r = std::panic::catch_unwind(std::panic::AssertUnwindSafe(f));
     watchdog_disarm();
     match r {
